@@ -351,7 +351,7 @@ def r5_umask(ctx, prog):
                     elif a.get('k') == 'Call' and short(a.get('callee')) == 'getInt' and '"objectstore.umask"' in s:
                         root_ok = True
                         r.ok(g['qname'], site, 'configuration root %s' % s[:80], file=g['file'], line=node['l'])
-                    elif (g['qname'], q) in UMASK_EXCEPTIONS and UMASK_EXCEPTIONS[(g['qname'], q)][0](prog):
+                    elif (g['qname'], q) in UMASK_EXCEPTIONS and UMASK_EXCEPTIONS[(g['qname'], q)][0](prog, node):
                         r.excepted(g['qname'], site, UMASK_EXCEPTIONS[(g['qname'], q)][1], file=g['file'], line=node['l'])
                     else:
                         r.violation(g['qname'], site, 'the umask handed down is %s, which is neither the caller\'s umask parameter/field nor the configured objectstore.umask' % s[:60], file=g['file'], line=node['l'])
@@ -396,9 +396,14 @@ def r5_umask(ctx, prog):
             r.ok('Configuration', 'objectstore.umask type', um[0], file=cfg['file'], line=cfg['line'])
 
 
-def generation_never_creates_without_token_flag(prog):
+def generation_never_creates_without_token_flag(prog, call=None):
     """OSToken's constructor calls Generation::create(path, true): `true` binds to the umask parameter and isToken stays false.
-    With isToken==false a Generation object never opens its file for writing, so the bogus umask creates nothing."""
+    With isToken==false a Generation object never opens its file for writing, so the bogus umask creates nothing.
+    The reason holds only for a call that leaves isToken at its default (or passes a constant false)."""
+    if call is not None:
+        extra = call.get('args', [])[2:]
+        if any(tables.const_eval(a) != 0 for a in extra if a is not None and a.get('k') != 'DefaultArg'):
+            return False
     for name in ('Generation::commit', 'Generation::update', 'Generation::Generation', 'Generation::sync'):
         for f in prog.fns(name):
             o = Outcomes(f, prog, cenv={'isToken': 0}, record_calls={'ctor File', 'new File'})
